@@ -599,7 +599,9 @@ def _ref_nested(leaves, doappend, order, gmap):
     return combine(top)
 
 
-ROWSETS16 = [["a", "b", "c"], ["b", "c", "d"], ["c", "a", "e"], ["a", "b", "c"]]
+# row label sets per event: overlapping sets, and the SAME set in other orders (a permutation needs re-ordering, not expansion)
+ROWSETS16 = [["a", "b", "c"], ["b", "c", "d"], ["c", "a", "e"], ["a", "b", "c"], ["c", "b", "a"], ["b", "c", "a"]]
+EVTAB16 = EVTAB + [[[3, -3], [-1, -1], [0, -4]], [[0, 0], [4, -1], [2, -5]]]
 
 
 def make_dr_labels(labels_in):
@@ -634,7 +636,7 @@ def check_form_rows(ids, with_x, doappend):
         labels = ROWSETS16[ei]
         DR = make_dr_labels(labels)
         r = DR.prepare_results("mission", "E%d" % ei)
-        ext = np.array(EVTAB[ei], dtype=float)
+        ext = np.array(EVTAB16[ei], dtype=float)
         x = ext * 0 + 10.0 * (ei + 1) + np.arange(2)[None, :] + 0.1 * np.arange(3)[:, None] if with_x else None
         r.add_maxmin("cat", ext, ["E%dM%d" % (ei, i) for i in range(3)], ["E%dm%d" % (ei, i) for i in range(3)], x, "Time")
         results["E%d" % ei] = r
@@ -824,7 +826,7 @@ def uf_system(form, layout):
     m = np.array([2.0, 1.5, 1.0, 1.2, 0.8, 1.0][:n]) if form != "mnone" else None
     kd = np.array([0.0] * nrb + [40.0, 90.0, 160.0][:nel] + [5000.0] * nrf)
     bd = np.array([0.0] * nrb + [0.5, 0.9, 1.4][:nel] + [0.0] * nrf)
-    if form == "full":
+    if form in ("full", "fullF"):
         k = np.diag(kd)
         b = np.diag(bd)
         mm = np.diag(m)
@@ -833,6 +835,8 @@ def uf_system(form, layout):
             b[i, i + 1] = b[i + 1, i] = 0.1
             mm[i, i + 1] = mm[i + 1, i] = 0.05
         m, b = mm, b
+        if form == "fullF":  # the same matrices in Fortran (column-major) memory order
+            m, b, k = np.asfortranarray(m), np.asfortranarray(b), np.asfortranarray(k)
     else:
         k, b = kd, bd
     rf = np.arange(nrb + nel, n) if nrf else None
@@ -894,12 +898,18 @@ def check_applyuf(form, layout, ufseq):
     s = uf_system(form, layout)
     sol = s["sol"]
     keep = copy.deepcopy(sol)
+    mats0 = [None if s[x] is None else s[x].copy() for x in "mbk"]
     save = {}
     h0 = None
     hs = []
     for step, ui in enumerate(ufseq):
         uf = UFS[ui]
         out = cla.apply_uf(sol, uf, s["m"], s["b"], s["k"], s["nrb"], s["rf"], save)
+        if not all((a is None and s[x] is None) or np.array_equal(a, s[x]) for a, x in zip(mats0, "mbk")):
+            msgs.append("call %d (uf=%s): apply_uf modified the caller's m, b or k" % (step, uf))
+            for a, x in zip(mats0, "mbk"):
+                if a is not None:
+                    s[x][...] = a
         fresh = cla.apply_uf(copy.deepcopy(keep), uf, s["m"], s["b"], s["k"], s["nrb"], s["rf"], None)
         ref = ref_apply_uf(s, uf)
         for nm in ("a", "v", "d", "d_static", "d_dynamic", "pg"):
@@ -937,7 +947,7 @@ def check_applyuf(form, layout, ufseq):
 def shard_applyuf(sh):
     res = Result()
     seen = set()
-    for form, layout in itertools.product(("diag", "full", "mnone"), ("el", "rb+el", "el+rf", "rb+el+rf", "rb")):
+    for form, layout in itertools.product(("diag", "full", "fullF", "mnone"), ("el", "rb+el", "el+rf", "rb+el+rf", "rb")):
         for n in range(1, sh["L"] + 1):
             for ufseq in itertools.product(range(len(UFS)), repeat=n):
                 msgs, hs = check_applyuf(form, layout, ufseq)
